@@ -138,6 +138,7 @@ type Exec struct {
 	pruneMs     int
 	decideBranches bool
 	fixedOrder  bool
+	flipOrder   bool // map ranges visit the keys in insertion order or in reverse insertion order (one solver-chosen boolean per range)
 	nconc       int
 	checkShared bool
 	recoverStack []*recoverCtx
@@ -1670,9 +1671,52 @@ func (ex *Exec) nextOp(fr *Frame, x *ssa.Next) {
 			}
 		}
 	}
+	if ex.flipOrder && !it.checked {
+		// two candidate orders per range statement instead of n!: sound for violations (both orders are real map orders), not
+		// exhaustive; used on shapes where the full permutation does not scale. Falls back to the full permutation when the set
+		// of live keys is not concrete.
+		it.checked = true
+		var keys []Value
+		conc := true
+		for i, p := range it.pres {
+			if p == TT {
+				keys = append(keys, it.keys[i])
+			} else if p != FF {
+				conc = false
+			}
+		}
+		if conc {
+			it.keys = keys
+			it.pres = make([]*T, len(keys))
+			for i := range it.pres {
+				it.pres[i] = TT
+			}
+			if len(keys) > 1 {
+				ex.nvar++
+				name := fmt.Sprintf("pickrev%d", ex.nvar)
+				it.rev = BoolVar(name)
+				ex.nondets = append(ex.nondets, NondetRec{Name: "maporder@" + site(x), Var: name, Kind: "pick"})
+			} else {
+				it.fixed = true
+			}
+		}
+	}
 	n := len(it.keys)
 	j := it.step
 	it.step++
+	if it.rev != nil {
+		if j >= n {
+			ex.set(fr, x, TupleV{FF, zero(it.kt), zero(it.vt)})
+			return
+		}
+		key := it.keys[j]
+		if j != n-1-j {
+			key = merge(it.rev, it.keys[n-1-j], it.keys[j])
+		}
+		val, _ := ex.mapLookup(fr, MapV{it.ms}, key, it.vt)
+		ex.set(fr, x, TupleV{TT, key, val})
+		return
+	}
 	if it.fixed {
 		if j >= n {
 			ex.set(fr, x, TupleV{FF, zero(it.kt), zero(it.vt)})
